@@ -153,7 +153,7 @@ where
                 // Same application of constraining domain is done for the other two variables.
                 //
                 // The constraint is not dropped until all variables converge into numbers.
-                Ok(state
+                let state = state
                     .process_domain(
                         &wwalk,
                         Rc::new(FiniteDomain::from(
@@ -171,8 +171,18 @@ where
                         Rc::new(FiniteDomain::from(
                             wmin.saturating_sub(umax)..=wmax.saturating_sub(umin),
                         )),
-                    )?
-                    .with_constraint(self))
+                    )?;
+
+                // Narrowing may have bound an operand of this constraint to a value. The bounds
+                // above were computed before that: propagate again with the new values.
+                if [uwalk, vwalk, wwalk]
+                    .iter()
+                    .any(|t| t.is_var() && state.smap_ref().contains_key(t))
+                {
+                    self.run(state)
+                } else {
+                    Ok(state.with_constraint(self))
+                }
             }
             // If all operators do not yet have domains, then keep the constraint until it can
             // be used to constrain some domains.
